@@ -492,6 +492,14 @@ func Differential(w *world.World, violate func(sig, msg string), last string) in
 	return n
 }
 
+// transView is an e1.Trans whose Violate may decorate signatures.
+type transView struct {
+	*e1.Trans
+	violate func(sig, msg string)
+}
+
+func (t *transView) Violate(sig, msg string) { t.violate(sig, msg) }
+
 func Run(c *ev.Ctx) {
 	quick := c.Quick()
 	n1 := cmdlib.NodeSpec{Node: "n1", ID: "id1"}
@@ -511,6 +519,8 @@ func Run(c *ev.Ctx) {
 	sc1 := cmdlib.CheckSpec{ID: "sc1", Status: api.HealthPassing, ServiceID: "web"}
 	sc2 := cmdlib.CheckSpec{ID: "sc2", Status: api.HealthCritical, ServiceID: "web-2"}
 
+	renameOp := cmdlib.RegService(n1, cmdlib.SvcSpec{ID: "web", Name: "api", Port: 80})
+	repointOp := cmdlib.RegService(n1, cmdlib.SvcSpec{ID: "web-proxy-1", Name: "web-proxy", Kind: structs.ServiceKindConnectProxy, DestName: "db", Upstreams: []string{"web"}, Port: 21000})
 	alpha := []world.Op{
 		cmdlib.RegNode(n1), cmdlib.RegNode(n2), cmdlib.RegNode(n1b),
 		cmdlib.RegService(n1, web), cmdlib.RegService(n2, web2), cmdlib.RegService(n1, web3),
@@ -534,6 +544,8 @@ func Run(c *ev.Ctx) {
 		cmdlib.Txn(cmdlib.TxnService(api.ServiceDelete, "n2", web2, 0), cmdlib.TxnService(api.ServiceSet, "n1", web3, 0)),
 		cmdlib.RegService(n1p, cmdlib.SvcSpec{Name: "web", Port: 80}), cmdlib.RegService(n1p, cmdlib.SvcSpec{ID: "web-2", Name: "web", Port: 80}),
 		cmdlib.DeregService("n1", "web", "p1"), cmdlib.DeregNode("n1", "p1"),
+		// an instance ID re-registered under another service name / a proxy re-pointed to another destination
+		renameOp, repointOp,
 	}
 	seedProxies := []world.Op{cmdlib.EnableVIPs(), cmdlib.RegNode(n1), cmdlib.RegNode(n2), cmdlib.RegService(n1, web), cmdlib.RegService(n2, web2),
 		cmdlib.RegService(n1, proxy1), cmdlib.RegService(n2, proxy2), cmdlib.RegService(n1, db)}
@@ -552,7 +564,21 @@ func Run(c *ev.Ctx) {
 	cfg := &e1.Config{Ctx: c, Seeds: seeds, Alphabet: alpha, MaxDepth: depth, AuditMerges: 40,
 		Pre: func(w *world.World) any { return vipAssignments(w) },
 		Post: func(t *e1.Trans) {
-			Invariants(t.W, t.Violate, t.Op.Kind)
+			// Re-registering an instance ID under another service name, or re-pointing a proxy to another
+			// destination, is handled by upstream as a plain update: nothing derived from the old name or
+			// destination is cleaned up (known finding). Violations on such histories carry their own
+			// signatures so that the same oracles stay sharp everywhere else.
+			tViolate := t.Violate
+			for _, h := range t.Hist {
+				if h == renameOp.Name || h == repointOp.Name {
+					tViolate = func(sig, msg string) {
+						t.Violate(sig+":history-renames-an-instance-or-repoints-a-proxy", msg)
+					}
+					break
+				}
+			}
+			tv := &transView{Trans: t, violate: tViolate}
+			Invariants(t.W, tv.Violate, t.Op.Kind)
 			// an assignment may only disappear when no instance named like the service remains
 			if !(strings.Contains(t.Op.Kind, "service/delete") && strings.Contains(t.Op.Kind, "service/set")) {
 				post := vipAssignments(t.W)
@@ -563,11 +589,11 @@ func Run(c *ev.Ctx) {
 				}
 				for svc, ip := range t.Pre.(map[string]string) {
 					if _, still := post[svc]; !still && names[svc] {
-						t.Violate("C07:vip-freed-while-instances-remain:last="+t.Op.Kind, fmt.Sprintf("virtual IP %s of service %s was released although instances of it remain", ip, svc))
+						tv.Violate("C07:vip-freed-while-instances-remain:last="+t.Op.Kind, fmt.Sprintf("virtual IP %s of service %s was released although instances of it remain", ip, svc))
 					}
 				}
 			}
-			n := Differential(t.W, t.Violate, t.Op.Kind)
+			n := Differential(t.W, tv.Violate, t.Op.Kind)
 			c.Add("rebuild_comparisons", int64(n))
 			// cascade rules on this transition
 			if strings.HasPrefix(t.Op.Kind, "deregister/node") || strings.Contains(t.Op.Kind, "node/delete") {
